@@ -7,41 +7,42 @@ import (
 
 // Profile biases the generator towards what one property is about.
 type Profile struct {
-	Name       string
-	MaxDepth   int
-	MaxFields  int
-	MaxElems   int
-	PCatch     int // % of primitives with Catch
-	PDefault   int
-	PRequired  int
-	PTests     int // % chance of each additional test (up to 3)
-	PUserTest  int // % of tests that are user TestFuncs
-	PPT        int // % of nodes with PostTransforms
-	PPTErr     int // % of PostTransforms that return an error
-	POpts      int // % of tests with Message/IssueCode options
-	PIssuePath int
-	PTags      int // % of struct fields with tags
-	PCustom    int // % of leaf positions that are custom schemas
-	PPre       int
-	PPtr       int
-	PSlice     int
-	PStruct    int
-	PWrongType int // % of leaves given a wrongly typed input
-	PAbsent    int // % of leaves given an absent-looking input
-	PInvalid   int // % of leaves given an input that fails a test
-	PCoercer   int // % of primitives with WithCoercer
-	PLayout    int // % of time nodes with Time.Format
-	PPrefill   int // % of Parse cases whose destination is prefilled
-	PExtra     int // % of structs with unnamed destination fields
-	Kinds      []string
-	NoNot      bool
-	FETags     bool // struct fields also carry form/query/env tags
-	PTopSlice  int  // % of top-level schemas that are slices
-	PTopPT     int  // % of top-level structs with PostTransforms even when PPT is 0 (their gate is deterministic)
-	PValid     int  // % of primitive leaves given a value their own schema accepts
-	PGlobal    int  // % of cases run with a global conf.Coercers override (String, Bool or Time) installed
-	NilBias    bool // whole inputs are re-drawn (up to 10 times) until the implementation reports no issues
-	Repeats    int  // how many times a case is re-run (with reshuffled schema insertion orders and varying pool states)
+	Name          string
+	MaxDepth      int
+	MaxFields     int
+	MaxElems      int
+	PCatch        int // % of primitives with Catch
+	PDefault      int
+	PRequired     int
+	PTests        int // % chance of each additional test (up to 3)
+	PUserTest     int // % of tests that are user TestFuncs
+	PPT           int // % of nodes with PostTransforms
+	PPTErr        int // % of PostTransforms that return an error
+	POpts         int // % of tests with Message/IssueCode options
+	PIssuePath    int
+	PTags         int // % of struct fields with tags
+	PCustom       int // % of leaf positions that are custom schemas
+	PPre          int
+	PPtr          int
+	PSlice        int
+	PStruct       int
+	PWrongType    int // % of leaves given a wrongly typed input
+	PAbsent       int // % of leaves given an absent-looking input
+	PInvalid      int // % of leaves given an input that fails a test
+	PCoercer      int // % of primitives with WithCoercer
+	PLayout       int // % of time nodes with Time.Format
+	PPrefill      int // % of Parse cases whose destination is prefilled
+	PExtra        int // % of structs with unnamed destination fields
+	Kinds         []string
+	NoNot         bool
+	FETags        bool // struct fields also carry form/query/env tags
+	PTopSlice     int  // % of top-level schemas that are slices
+	PTopPT        int  // % of top-level structs with PostTransforms even when PPT is 0 (their gate is deterministic)
+	PValid        int  // % of primitive leaves given a value their own schema accepts
+	PSpecialFloat int  // % of float inputs / validated float values that are NaN or +-Inf
+	PGlobal       int  // % of cases run with a global conf.Coercers override (String, Bool or Time) installed
+	NilBias       bool // whole inputs are re-drawn (up to 10 times) until the implementation reports no issues
+	Repeats       int  // how many times a case is re-run (with reshuffled schema insertion orders and varying pool states)
 }
 
 func DefaultProfile() Profile {
@@ -49,7 +50,7 @@ func DefaultProfile() Profile {
 		Name: "default", MaxDepth: 3, MaxFields: 3, MaxElems: 3,
 		PCatch: 20, PDefault: 20, PRequired: 45, PTests: 60, PUserTest: 25, PPT: 15, PPTErr: 25, POpts: 20,
 		PIssuePath: 0, PTags: 30, PCustom: 5, PPre: 5, PPtr: 15, PSlice: 20, PStruct: 25,
-		PWrongType: 12, PAbsent: 18, PInvalid: 30, PCoercer: 4, PLayout: 30, PPrefill: 30, PExtra: 30, PGlobal: 3,
+		PWrongType: 12, PAbsent: 18, PInvalid: 30, PCoercer: 4, PLayout: 30, PPrefill: 30, PExtra: 30, PGlobal: 3, PSpecialFloat: 6,
 		Kinds: []string{KString, KString, KInt, KInt, KInt32, KInt64, KFloat64, KFloat32, KBool, KTime},
 	}
 }
@@ -426,6 +427,7 @@ func ProfileByName(name string) Profile {
 		p.PValid = 85
 		p.PAbsent = 8
 		p.PDefault = 30
+		p.PSpecialFloat = 20
 		p.PTests = 55
 		p.PUserTest = 15
 		p.PPtr = 25
@@ -443,6 +445,8 @@ func ProfileByName(name string) Profile {
 		p.PCatch = 15
 		p.MaxFields = 2
 		p.NilBias = true
+		p.PSpecialFloat = 35
+		p.Kinds = []string{KString, KInt, KFloat64, KFloat64, KFloat32, KInt64, KBool, KTime} // floats: NaN and the infinities are values too
 	case "C02":
 		p.PInvalid = 45
 		p.PTests = 75
